@@ -530,3 +530,45 @@ func checkVOP3PModifiers(c *core.Ctx, t *InstTables) {
 		}
 	}
 }
+
+// checkTableIndependentOfConfiguration (R04.37): the decode table is built by NewDisassembler,
+// and every builder of the repository configures the disassembler (IsCDNA3) after it was
+// constructed. A table row that depends on a configurable field therefore sees the field's zero
+// value on every decoder: the rows under `if d.IsCDNA3` exist on none. In the functions reached
+// from NewDisassembler no exported field of the Disassembler - a field other packages set on the
+// finished object - is read.
+func checkTableIndependentOfConfiguration(c *core.Ctx) {
+	st := c.Rule("R04.37", "the decode table does not depend on how the disassembler is configured later: in NewDisassembler and the functions of the package it reaches, no exported field of the Disassembler (IsCDNA3: set by the platform builders on the object NewDisassembler returned) is read. Such a read always sees the zero value, so rows registered under it are registered on no decoder - a CDNA3 decoder then reports its own packed instructions as undecodable", 2)
+	root := c.MustFunc("R04.37", instsPkg, "NewDisassembler")
+	if root == nil {
+		return
+	}
+	seen := map[*ssa.Function]bool{}
+	var visit func(fn *ssa.Function, d int)
+	visit = func(fn *ssa.Function, d int) {
+		if seen[fn] || d > 4 {
+			return
+		}
+		seen[fn] = true
+		st.Instances++
+		c.MarkAnalysed(fn)
+		ok := true
+		for _, b := range fn.Blocks {
+			for _, in := range b.Instrs {
+				if ld, isLd := in.(*ssa.UnOp); isLd && ld.Op == token.MUL {
+					if f := core.LoadedField(ld); f != nil && f.Exported() && core.ShortFieldID(f) == "Disassembler."+f.Name() {
+						ok = false
+						c.ReportAt("R04.37", fn, ld.Pos(), "table-depends-on-configuration:"+f.Name(), core.FuncName(fn)+", which runs inside NewDisassembler, reads Disassembler."+f.Name()+": every builder sets that field after NewDisassembler returned, so the read sees the zero value on every decoder and whatever the table registers under it is never registered")
+					}
+				}
+				if cc := core.CallOf(in); cc != nil {
+					if cal := cc.StaticCallee(); cal != nil && cal.Pkg == fn.Pkg && len(cal.Blocks) > 0 {
+						visit(cal, d+1)
+					}
+				}
+			}
+		}
+		st.Ob(ok)
+	}
+	visit(root, 0)
+}
